@@ -8,6 +8,7 @@ import (
 	"flag"
 	"fmt"
 	"os"
+	"strconv"
 	"strings"
 
 	"gosmt/sym"
@@ -43,6 +44,8 @@ func cmdRun(args []string) {
 	trace := fs.Bool("trace", false, "trace instructions")
 	debug := fs.Bool("debug", false, "debug output")
 	repo := fs.String("repo", "/repo", "repository root")
+	nosched := fs.String("nosched", "", "comma-separated packages without scheduling points")
+	params := fs.String("params", "", "harness params k=v,k=v")
 	fs.Parse(args)
 
 	ld, err := sym.Load(*repo, *pkg, strings.Split(*harness, ","), "/verif/zzvrf")
@@ -60,6 +63,16 @@ func cmdRun(args []string) {
 	cfg.Trace = *trace
 	cfg.Debug = *debug
 	cfg.SampleEvery = 1
+	if *nosched != "" {
+		cfg.NoSchedPkgs = strings.Split(*nosched, ",")
+	}
+	cfg.Params = map[string]int{}
+	for _, kv := range strings.Split(*params, ",") {
+		if i := strings.Index(kv, "="); i > 0 {
+			n, _ := strconv.Atoi(kv[i+1:])
+			cfg.Params[kv[:i]] = n
+		}
+	}
 	bad := false
 	for _, e := range strings.Split(*entry, ",") {
 		res, err := ld.Explore(e, cfg)
